@@ -123,6 +123,8 @@ type universe struct {
 	names   []string
 	partner map[string][]string
 	pattern map[string]bool // names that are the "A" side of a pair
+
+	idnDomain string // groups E/F: the internationalised domain of the pair (canonical U-label form)
 }
 
 func formsOf(atom string) []string {
